@@ -42,13 +42,168 @@ pub enum Outcome {
     Rejected(String),
 }
 
+fn pair_at(b: &[u8], p: usize) -> Option<(u32, u32)> {
+    let s = b.get(p..p + 8)?;
+    Some((
+        u32::from_le_bytes(s[0..4].try_into().unwrap()),
+        u32::from_le_bytes(s[4..8].try_into().unwrap()),
+    ))
+}
+
+/// Reference integrity of the written bytes, judged without the library's parser: header counts
+/// equal the model's element counts, every texture file name is referenced and stored, every
+/// event's range/time arrays are referenced and stored. Ordered by cause: a defect in an early
+/// check can corrupt what the later ones look at, never the other way round.
+fn refs_check(tag: &str, m: &M2Model, vn: u32, b: &[u8], l: &m2layout::Layout) -> CaseResult {
+    let slot = |n: &str| l.top.iter().find(|t| t.0 == n).map(|t| (t.1, t.2));
+    // texture file names
+    if let Some((c, o)) = slot("textures") {
+        if c as usize == m.textures.len() {
+            for (i, t) in m.textures.iter().enumerate() {
+                let named = t.filename.array.count > 0 && t.filename.array.offset != 0;
+                let Some((cnt, off)) = pair_at(b, o as usize + 16 * i + 8) else {
+                    return fail(format!("{tag}m2-written-texture-name-ref:record-outside-file"), format!("texture {i}"));
+                };
+                let name = &t.filename.string.data;
+                if named {
+                    if cnt == 0 {
+                        return fail(
+                            format!("{tag}m2-written-texture-name-ref:missing"),
+                            format!("texture {i} has file name {:?} but its record references no name (count 0, offset {off})", String::from_utf8_lossy(name)),
+                        );
+                    }
+                    let stored = b.get(off as usize..off as usize + name.len() + 1);
+                    let ok = cnt as usize == name.len() + 1
+                        && stored.is_some_and(|s| &s[..name.len()] == &name[..] && s[name.len()] == 0);
+                    if !ok {
+                        return fail(
+                            format!("{tag}m2-written-texture-name-ref:wrong"),
+                            format!("texture {i}: record says count {cnt} offset {off}, name {:?} is not stored there", String::from_utf8_lossy(name)),
+                        );
+                    }
+                } else if cnt != 0 {
+                    return fail(
+                        format!("{tag}m2-written-texture-name-ref:spurious"),
+                        format!("texture {i} has no file name but its record references count {cnt} at {off}"),
+                    );
+                }
+            }
+        }
+    }
+    // events
+    if let Some((c, o)) = slot("events")
+        && c as usize == m.events.len()
+        && !m.raw_data.event_data.is_empty()
+    {
+        for raw in &m.raw_data.event_data {
+            let i = raw.event_index;
+            let Some(ev) = m.events.get(i) else { continue };
+            let base = o as usize + 44 * i + 28;
+            let (Some(rg), Some(ts)) = (pair_at(b, base), pair_at(b, base + 8)) else {
+                return fail(format!("{tag}m2-written-event-ref:record-outside-file"), format!("event {i}"));
+            };
+            if rg.0 != ev.ranges.count {
+                return fail(
+                    format!("{tag}m2-written-event-ref:ranges-count"),
+                    format!("event {i} has {} ranges, its written record says {}", ev.ranges.count, rg.0),
+                );
+            }
+            if ts.0 != ev.times.count {
+                return fail(
+                    format!("{tag}m2-written-event-ref:times-count"),
+                    format!("event {i} has {} times, its written record says {}", ev.times.count, ts.0),
+                );
+            }
+            if rg.0 > 0 && b.get(rg.1 as usize..rg.1 as usize + raw.ranges.len()) != Some(&raw.ranges[..]) {
+                return fail(
+                    format!("{tag}m2-written-event-ref:ranges-bytes"),
+                    format!("event {i}: ranges are not stored at the referenced offset {}", rg.1),
+                );
+            }
+            if ts.0 > 0 && b.get(ts.1 as usize..ts.1 as usize + raw.timestamps.len()) != Some(&raw.timestamps[..]) {
+                return fail(
+                    format!("{tag}m2-written-event-ref:times-bytes"),
+                    format!("event {i}: times are not stored at the referenced offset {}", ts.1),
+                );
+            }
+        }
+    }
+    // header counts
+    let r = &m.raw_data;
+    let mut want: Vec<(&str, usize)> = vec![
+        ("name", m.name.as_ref().map(|n| n.len() + 1).unwrap_or(0)),
+        ("global_sequences", m.global_sequences.len()),
+        ("sequences", m.animations.len()),
+        ("animation_lookup", m.animation_lookup.len()),
+        ("bones", m.bones.len()),
+        ("key_bone_lookup", m.key_bone_lookup.len()),
+        ("vertices", m.vertices.len()),
+        ("color_animations", m.color_animations.len()),
+        ("textures", m.textures.len()),
+        ("transparency_animations", m.transparency_animations.len()),
+        ("texture_animations", m.texture_animations.len()),
+        ("materials", m.materials.len()),
+        ("bone_lookup_table", r.bone_lookup_table.len()),
+        ("texture_lookup_table", r.texture_lookup_table.len()),
+        ("texture_units", r.texture_units.len()),
+        ("transparency_lookup_table", r.transparency_lookup_table.len()),
+        ("texture_animation_lookup", r.texture_animation_lookup.len()),
+        ("bounding_triangles", r.bounding_triangles.len() / 2),
+        ("bounding_vertices", r.bounding_vertices.len() / 12),
+        ("bounding_normals", r.bounding_normals.len() / 12),
+        ("attachments", m.attachments.len()),
+        ("attachment_lookup_table", r.attachment_lookup_table.len()),
+        ("events", m.events.len()),
+        ("lights", m.lights.len()),
+        ("cameras", m.cameras.len()),
+        ("camera_lookup_table", r.camera_lookup_table.len()),
+        ("ribbon_emitters", m.ribbon_emitters.len()),
+        ("particle_emitters", m.particle_emitters.len()),
+    ];
+    if vn <= 263 {
+        want.push(("views", r.embedded_skins.len()));
+    }
+    for (n, w) in want {
+        if let Some((c, _)) = slot(n)
+            && c as usize != w
+        {
+            return fail(
+                format!("{tag}m2-written-count:{n}"),
+                format!("model has {w} {n} element(s), written header says {c}"),
+            );
+        }
+    }
+    Ok(())
+}
+
 /// parse(write(m)) == m on content; write(parse(write(m))) == write(m); layout is sound.
 /// `tag` prefixes signatures ("" for generated models, "converted:" for converter output).
 pub fn model_roundtrip(tag: &str, m: &M2Model, vn: u32) -> Result<Outcome, Fail> {
+    let lenient = !tag.is_empty();
     let bytes = match write_model("m2-write", m)? {
         Ok(b) => b,
         Err(e) => return Ok(Outcome::Rejected(err_kind(&e))),
     };
+    // independent structural judges first (they name causes; content differences name symptoms)
+    let lay = match m2layout::walk_m2(&bytes) {
+        Ok(x) => x,
+        Err(e) => {
+            return Err(Fail::new(
+                format!("{tag}m2layout:unreadable-header"),
+                format!("layout walker could not read the written header: {e}"),
+            ));
+        }
+    };
+    if lay.0.version != vn {
+        return Err(Fail::new(
+            format!("{tag}m2layout:version-field"),
+            format!("header version field is {} for a version-{vn} model", lay.0.version),
+        ));
+    }
+    refs_check(tag, m, vn, &bytes, &lay.0)?;
+    if let Some(p) = lay.1.first() {
+        return Err(Fail::new(format!("{tag}m2layout:{}", p.class), p.detail.clone()));
+    }
     let parsed = match guard("m2-parse", || parse_m2(&mut Cursor::new(&bytes)))? {
         Ok(f) => f,
         Err(e) => {
@@ -66,9 +221,9 @@ pub fn model_roundtrip(tag: &str, m: &M2Model, vn: u32) -> Result<Outcome, Fail>
     }
     let parsed = parsed.model().clone();
     let f = Fields::of(vn);
-    let want = canon::model(m, &f);
-    let got = canon::model(&parsed, &f);
-    if let Some(d) = canon::diff(&want, &got) {
+    let want = canon::model(m, &f, lenient);
+    let got = canon::model(&parsed, &f, false);
+    if let Some(d) = canon::diff_sections(&want, &got) {
         return Err(Fail::new(
             format!("{tag}m2-roundtrip-differs:{}", d.generic),
             format!(
@@ -87,40 +242,21 @@ pub fn model_roundtrip(tag: &str, m: &M2Model, vn: u32) -> Result<Outcome, Fail>
             ));
         }
     };
-    let lay = m2layout::walk_m2(&bytes);
     if let Some(pos) = first_diff(&bytes, &bytes2) {
-        let region = match &lay {
-            Ok((l, _)) if pos < bytes.len() => m2layout::locate(l, pos as u64),
-            _ => "length".to_string(),
+        let region = match m2layout::first_gap(&lay.0, bytes.len() as u64) {
+            Some((a, z, after)) => format!("unreferenced-bytes-after:{after} ({a}..{z})"),
+            None if pos < bytes.len() => m2layout::locate(&lay.0, pos as u64),
+            None => "length".to_string(),
         };
+        let class = region.split(' ').next().unwrap_or("").to_string();
         return Err(Fail::new(
-            format!("{tag}m2-rewrite-differs:{region}"),
+            format!("{tag}m2-rewrite-differs:{class}"),
             format!(
-                "version {vn}: write(parse(write(m))) != write(m): first difference at byte {pos} ({} vs {} bytes), region {region}",
+                "version {vn}: write(parse(write(m))) != write(m): first difference at byte {pos} ({} vs {} bytes), {region}",
                 bytes.len(),
                 bytes2.len()
             ),
         ));
-    }
-    // independent structural judge
-    match lay {
-        Err(e) => {
-            return Err(Fail::new(
-                format!("{tag}m2layout:unreadable-header"),
-                format!("layout walker could not read the written header: {e}"),
-            ));
-        }
-        Ok((l, problems)) => {
-            if l.version != vn {
-                return Err(Fail::new(
-                    format!("{tag}m2layout:version-field"),
-                    format!("header version field is {} for a version-{vn} model", l.version),
-                ));
-            }
-            if let Some(p) = problems.first() {
-                return Err(Fail::new(format!("{tag}m2layout:{}", p.class), p.detail.clone()));
-            }
-        }
     }
     Ok(Outcome::Checked)
 }
@@ -174,7 +310,7 @@ pub fn check_model(c: &ModelCase) -> Result<ModelReport, Fail> {
                 }
             };
             let f = Fields::of(src.num());
-            if let Some(d) = canon::diff(&canon::model(&m, &f), &canon::model(&conv, &f)) {
+            if let Some(d) = canon::diff_sections(&canon::model(&m, &f, false), &canon::model(&conv, &f, false)) {
                 return fail2(
                     format!("m2-convert-same-version-changes:{}", d.generic),
                     format!(
@@ -187,7 +323,7 @@ pub fn check_model(c: &ModelCase) -> Result<ModelReport, Fail> {
                     ),
                 );
             }
-            match write_model("m2-write-converted", &conv)? {
+            match write_model("m2-write", &conv)? {
                 Ok(b) if b == base => {}
                 Ok(b) => {
                     let pos = first_diff(&base, &b).unwrap_or(0);
@@ -230,7 +366,7 @@ pub fn check_model(c: &ModelCase) -> Result<ModelReport, Fail> {
                 );
             }
         };
-        let bytes = match write_model("m2-write-converted", &conv)? {
+        let bytes = match write_model("m2-write", &conv)? {
             Ok(b) => b,
             Err(e) => {
                 return fail2(
@@ -239,7 +375,7 @@ pub fn check_model(c: &ModelCase) -> Result<ModelReport, Fail> {
                 );
             }
         };
-        let parsed = match guard("m2-parse-converted", || parse_m2(&mut Cursor::new(&bytes)))? {
+        let parsed = match guard("m2-parse", || parse_m2(&mut Cursor::new(&bytes)))? {
             Ok(p) => p.model().clone(),
             Err(e) => {
                 return fail2(
@@ -255,7 +391,7 @@ pub fn check_model(c: &ModelCase) -> Result<ModelReport, Fail> {
             );
         }
         let f = Fields::common(src.num(), tgt.num());
-        if let Some(d) = canon::diff(&canon::model(&m, &f), &canon::model(&parsed, &f)) {
+        if let Some(d) = canon::diff_sections(&canon::model(&m, &f, false), &canon::model(&parsed, &f, false)) {
             return fail2(
                 format!("m2-convert-loses:{}", d.generic),
                 format!(
@@ -276,11 +412,6 @@ fn fail2<T>(sig: String, msg: String) -> Result<T, Fail> {
 
 // ---------------------------------------------------------------------------------------
 // skins
-
-#[derive(Clone, Debug, Default, Serialize, Deserialize)]
-pub struct SubmeshSpec {
-    pub seed: u32,
-}
 
 #[derive(Clone, Debug, Default, Serialize, Deserialize)]
 pub struct SkinSpec {
@@ -401,6 +532,15 @@ fn skin_roundtrip(tag: &str, s: &SkinFile) -> Result<Outcome, Fail> {
         Ok(b) => b,
         Err(e) => return Ok(Outcome::Rejected(err_kind(&e))),
     };
+    // independent structural judge first
+    match m2layout::walk_skin(&bytes, new_layout) {
+        Err(e) => return fail2(format!("{tag}skinlayout:unreadable-header"), e),
+        Ok((_, problems)) => {
+            if let Some(p) = problems.first() {
+                return fail2(format!("{tag}skinlayout:{}", p.class), format!("{lname}-layout skin: {}", p.detail));
+            }
+        }
+    }
     let parsed = match parse_skin_typed(&bytes, new_layout)? {
         Ok(p) => p,
         Err(e) => {
@@ -450,14 +590,6 @@ fn skin_roundtrip(tag: &str, s: &SkinFile) -> Result<Outcome, Fail> {
             format!("{tag}skin-rewrite-differs:{lname}"),
             format!("write(parse(write(s))) != write(s) at byte {pos}"),
         );
-    }
-    match m2layout::walk_skin(&bytes, new_layout) {
-        Err(e) => return fail2(format!("{tag}skinlayout:unreadable-header"), e),
-        Ok((_, problems)) => {
-            if let Some(p) = problems.first() {
-                return fail2(format!("{tag}skinlayout:{lname}:{}", p.class), p.detail.clone());
-            }
-        }
     }
     Ok(Outcome::Checked)
 }
@@ -714,6 +846,5 @@ pub fn check_anim(s: &AnimSpec) -> Result<Option<String>, Fail> {
             }
         }
     }
-    let _ = fail;
     Ok(None)
 }
